@@ -2,7 +2,9 @@ package main
 
 import (
 	"fmt"
+	"go/types"
 	"os"
+	"sort"
 	"strings"
 
 	"kv/exec"
@@ -37,4 +39,62 @@ func dptNames(l *loaded) [][2]int64 {
 		fmt.Fprintln(os.Stderr, "dptNames: registry listing failed:", out.Kind, out.Detail, out.Site)
 	}
 	return res
+}
+
+// c19Completeness: every exported DPT_* type of the package that implements
+// Datapoint (through its pointer) must be the dynamic type of some registry entry.
+func c19Completeness(l *loaded) ([]string, int) {
+	p := l.World.Pkgs[modPath+"/knx/dpt"]
+	if p == nil {
+		return []string{"package dpt not loaded"}, 0
+	}
+	fn, err := l.harness("dpt", "HarnessC19Types")
+	if err != nil {
+		return []string{err.Error()}, 0
+	}
+	s, err := smt.Start("z3", 10000)
+	if err != nil {
+		return []string{err.Error()}, 0
+	}
+	defer s.Close()
+	e := exec.New(l.World, s, exec.Config{Unwind: 5000})
+	out := e.RunPath(fn, nil, nil)
+	if out.Kind != "ok" {
+		return []string{"registry listing failed: " + out.Kind + " " + out.Detail}, 0
+	}
+	inReg := map[string]string{}
+	for _, o := range out.Obs {
+		if strings.HasPrefix(o, "type=") {
+			f := strings.Fields(o[5:])
+			if len(f) == 2 {
+				inReg[f[1]] = f[0]
+			}
+		}
+	}
+	dp := p.Pkg.Scope().Lookup("Datapoint")
+	if dp == nil {
+		return []string{"interface Datapoint not found"}, 0
+	}
+	iface := dp.Type().Underlying().(*types.Interface)
+	var missing []string
+	n := 0
+	names := p.Pkg.Scope().Names()
+	sort.Strings(names)
+	for _, name := range names {
+		if !strings.HasPrefix(name, "DPT_") {
+			continue
+		}
+		tn, ok := p.Pkg.Scope().Lookup(name).(*types.TypeName)
+		if !ok || !tn.Exported() {
+			continue
+		}
+		if !types.Implements(types.NewPointer(tn.Type()), iface) {
+			continue
+		}
+		n++
+		if _, ok := inReg["*dpt."+name]; !ok {
+			missing = append(missing, "exported datapoint type "+name+" is not reachable through the registry")
+		}
+	}
+	return missing, n
 }
